@@ -371,6 +371,32 @@ fn db_layer(tier: Tier, slow: &Path, fast: &Path) -> Report {
             jobs.push(Job { mode: Mode::Batch, ops: h, family: "deep", on_disk: false });
         }
     }
+    // two-cycle family: what a second session does to a database that was already reopened once (most defects do not
+    // manifest from the initial state): every prefix of 1..=2 letters of the reduced alphabet, a reopen, every single
+    // letter, a reopen.  Covers "delete the newest entity, reopen, create, reopen" and its relatives at quick depth.
+    let mut two_cycle = 0u64;
+    {
+        let da: Vec<Op> = alphabet(tier, true).into_iter().filter(|o| !o.is_reopen()).collect();
+        let mut prefixes: Vec<Vec<Op>> = da.iter().map(|o| vec![o.clone()]).collect();
+        for a in &da {
+            for b in &da {
+                prefixes.push(vec![a.clone(), b.clone()]);
+            }
+        }
+        for pre in &prefixes {
+            for q in &da {
+                for reopen in [Op::CloseOpen, Op::DropOpen] {
+                    let mut h = pre.clone();
+                    h.push(reopen.clone());
+                    h.push(q.clone());
+                    h.push(reopen.clone());
+                    two_cycle += 1;
+                    jobs.push(Job { mode: Mode::Batch, ops: h, family: "two-cycle", on_disk: false });
+                }
+            }
+        }
+    }
+    rep.set("two_cycle_histories", json!(two_cycle));
     // a sample on the real (fsync-ing) scratch directory: every history of length <= 3 in every mode
     let h_disk = histories(&alpha, tier.pick(2, 3));
     for m in Mode::ALL {
